@@ -162,7 +162,8 @@ func (s *Share) rawDataStartIndex() int {
 	if isCompact {
 		index += ShareReservedBytes
 	}
-	if s.Version() == ShareVersionOne {
+	// the signer is only present in the first share of a sequence
+	if isStart && s.Version() == ShareVersionOne {
 		index += SignerSize
 	}
 	return index
@@ -196,7 +197,8 @@ func (s *Share) rawDataStartIndexUsingReserved() (int, error) {
 	if isStart {
 		index += SequenceLenBytes
 	}
-	if s.Version() == ShareVersionOne {
+	// the signer is only present in the first share of a sequence
+	if isStart && s.Version() == ShareVersionOne {
 		index += SignerSize
 	}
 
